@@ -481,6 +481,12 @@ func newObservedMap(pass *analysishelper.EnhancedPass, files []*ast.File) *Obser
 			if len(decl.Recv.List) > 1 {
 				pass.Panic(fmt.Sprintf("Multiple receivers found for method %s", decl.Name), decl.Pos())
 			}
+			if len(decl.Recv.List) == 1 && len(decl.Recv.List[0].Names) == 0 {
+				// An anonymous receiver (`func (*T) m()`) cannot be named in an annotation. It must
+				// not be looked up as an anonymous field of a result list either, which would hand
+				// it the annotation written for `result 0`.
+				return EmptyVal
+			}
 			return accFromFieldList(set, decl.Recv, false, false)[0]
 		}
 		return EmptyVal
